@@ -564,6 +564,7 @@ func GenScenario(t *rapid.T, p *Profile) *Scenario {
 			kind := pick(t, kinds, "govKind")
 			op := GenOp(t, p, kind, nAcc)
 			op.Actor, op.Named = -1, -1
+			op.Flag = oneIn(t, 7, "veto")
 			blk.Txs = append(blk.Txs, Tx{Ops: []Op{op}, Wrap: WrapGov})
 		}
 		if p.Crashes && oneIn(t, 4, "crash") {
